@@ -86,7 +86,7 @@ def tight_cases(rng, n):
     # on the way (a None written and taken back), dates that a datetime write promotes in place, dict cells replaced by a
     # dict with the same keys, -0.0 / 0.0
     for _ in range(n // 3):
-        kind = rng.choice(["str", "date", "dict", "zero", "nested"])
+        kind = rng.choice(["str", "date", "dict", "zero", "nested", "nan"])
         rows = rng.randint(2, 5)
         i = rng.randrange(rows)
         if kind == "str":
@@ -106,12 +106,21 @@ def tight_cases(rng, n):
                        "col": rng.randrange(rows), "via": "inner", "writes": [[0, rng.randrange(60, 99)] for _ in range(rng.choice([1, 2]))],
                        "fp_first": rng.random() < 0.9})
             continue
+        elif kind == "nan":
+            # NaN at the top level and INSIDE tuples / lists: every ["nan"] is a float('nan') object of its own, and the freshly
+            # built object holds yet other NaN objects - a fingerprint is a function of the contents, not of which NaN it is
+            pool = [["nan"], ["tup", [2.0, ["nan"]]], ["tup", [["nan"]]], ["lst", [["nan"], 1.5]], 2.5, ["tup", [1.0, 2.0]],
+                    ["tup", [["tup", [["nan"], 0.5]], 3.0]]]
+            col = [rng.choice(pool) for _ in range(rows)]
+            col[i] = rng.choice(pool[1:4])
+            col[(i + 1) % rows] = 2.5                        # a float next to a tuple / list: an object column, every write fits
+            writes = rng.choice([[[i, col[i]]], [[i, rng.choice(pool)]], [[i, 2.5], [i, col[i]]]])
         else:
             col = [0.0, 1.5, -0.0, 2.0, 0.0][:rows]
             writes = [[i, -0.0 if col[i] == 0.0 and str(col[i]) == "0.0" else 0.0]]
         other = [rng.randrange(9) for _ in range(rows)]
         cs.append({"op": "tight", "cols": [col, other], "col": 0,
-                   "via": rng.choice(["vector", "colview"] if kind == "dict" else ["vector", "colview", "cell"]),   # a dict is a row to t[i, j] = ...
+                   "via": rng.choice(["vector", "colview"] if kind in ("dict", "nan") else ["vector", "colview", "cell"]),   # a dict is a row to t[i, j] = ...
                    "writes": writes, "fp_first": rng.random() < 0.8, "kind": kind})
     return cs
 
@@ -122,6 +131,26 @@ def _dv(x):
         return dt.date.fromordinal(x[1])
     if isinstance(x, list) and x and x[0] == "dt":
         return dt.datetime.combine(dt.date.fromordinal(x[1]), dt.time()) + dt.timedelta(seconds=x[2])
+    if isinstance(x, list) and x and x[0] == "nan":
+        return float("nan")                                   # a NaN object of its own, every time
+    if isinstance(x, list) and x and x[0] == "tup":
+        return tuple(_dv(e) for e in x[1])
+    if isinstance(x, list) and x and x[0] == "lst":
+        return [_dv(e) for e in x[1]]
+    return x
+
+
+def _rebuilt(x):
+    """an object with the same contents that shares no float / container OBJECT with x (NaN is equal to nothing, itself
+    included: 'the same contents' is decided structurally, as repr shows it)"""
+    if type(x) is float:
+        return float.fromhex(x.hex()) if x == x else float("nan")
+    if type(x) is tuple:
+        return tuple(_rebuilt(e) for e in x)
+    if type(x) is list:
+        return [_rebuilt(e) for e in x]
+    if type(x) is dict:
+        return {k: _rebuilt(v) for k, v in x.items()}
     return x
 
 
@@ -181,11 +210,11 @@ def _observe_tight(case):
             obj[list(idx), j] = list(vals)
     after = obj.fingerprint()
     if via == "vector":
-        cells = list(obj._underlying)
+        cells = [_rebuilt(x) for x in obj._underlying]
         fresh = Vector(cells, name="a")
         contents = [repr(x) for x in cells]
     else:
-        fresh = Table([Vector(list(c._underlying), name=c.name) for c in obj.cols()])
+        fresh = Table([Vector([_rebuilt(x) for x in c._underlying], name=c.name) for c in obj.cols()])
         contents = [[repr(x) for x in c._underlying] for c in obj.cols()]
     return {"before": before, "after": after, "fresh": fresh.fingerprint(), "contents": contents,
             "again": obj.fingerprint(), "start": start}
@@ -228,7 +257,7 @@ def oracle(case, obs):
                 f"gives {obs['fresh']}")
     if obs["again"] != obs["after"]:
         return f"C16-unstable: {what}: a second call returned {obs['again']} after {obs['after']}"
-    if case.get("kind") in ("str", "date", "dict", "nested") and obs["before"] is not None and obs["start"] != obs["contents"] \
+    if case.get("kind") in ("str", "date", "dict", "nested", "nan") and obs["before"] is not None and obs["start"] != obs["contents"] \
             and obs["before"] == obs["after"]:
         return (f"C16-insensitive: {what}: the contents went from {obs['start']} to {obs['contents']} but the fingerprint "
                 f"stayed {obs['after']}")
